@@ -97,7 +97,7 @@ pub fn random_shape(rng: &mut rand_chacha::ChaChaRng, name: &str, max_pad: usize
 }
 
 fn n_explicit_cons(s: &Shape) -> usize {
-    let f = |ops: &[Op]| ops.iter().filter(|o| matches!(o, Con | ConConst | ConCommitted | ConTree(_, _))).count();
+    let f = |ops: &[Op]| ops.iter().filter(|o| matches!(o, Con | ConConst | ConCommitted | ConSum | ConTree(_, _))).count();
     f(&s.phase1) + s.phase2.iter().map(|p| f(p)).sum::<usize>()
 }
 
